@@ -2,14 +2,14 @@
 import vlib, gen, gen_prog, runlib
 from gen_prog import FLAG, run_line, parse_obs, head
 
-LEVEL = "other"
+LEVEL = "proof"
 FAMILY = "run"
 
 MANIFEST = {
- "level": "other",
- "text": "Proved for every operator of the model (all argument lists, flag sets, budgets, cryptographic primitives): when a call succeeds under F and under F|NEW_COST_MODEL the two values are equal (operator contract op_cm_indep). The run-level statement (a completed softfork guard is a black box that yields nil under both models although the operator sets inside differ) is stated in Props/C11.v and proved for programs that enter no guard; with guards it is decided by exploration: every generated program is run under F and F|NEW_COST_MODEL on the implementation and the result trees are compared, and the model is compared with the implementation on both runs.",
- "note": vlib.NOTE_COMMON + " Level 'other' because the run-level theorem is proved only for guard-free runs.",
- "technique": "Coq proof (per-operator cost-model independence; lock-step simulation with differing costs for guard-free runs) + model/implementation differential run + implementation search over (F, F|NEW_COST_MODEL) pairs",
+ "level": "proof",
+ "text": "Proved about the Gallina model (Props/C11.v), for every program, environment, flag set F, every two budgets, every set of cryptographic primitives: if the run on ChiaDialect succeeds under F and under F|NEW_COST_MODEL the two result trees are equal (C11_run; C11_run_general for any two flag sets that differ in NEW_COST_MODEL and LIMITS only, C11_run_runtime for RuntimeDialect). The proof goes through a recursive big-step evaluator (Model/BigStep.v) that is proved equivalent to the stack machine of run_program.rs (Proofs/BigStepEquiv.v, both directions, same cost and value): paths, quote and apply do not read the cost model, every operator of the dispatch tables returns the same value when both calls succeed (C11_op, C11_unknown, C11_dispatch - the operator clause of the property), and a completed softfork guard yields nil under both models whatever its body computes (inside a guard the two models run different operator sets, so nothing is claimed there). The check additionally runs every generated program under F and F|NEW_COST_MODEL on the implementation and compares the result trees, and compares model and implementation on both runs.",
+ "note": vlib.NOTE_COMMON,
+ "technique": "Coq proof (big-step evaluator proved equivalent to the machine; induction over evaluations with per-operator cost-model independence contracts; guards as black boxes) + model/implementation differential run + implementation search over (F, F|NEW_COST_MODEL) pairs",
 }
 
 
